@@ -96,7 +96,10 @@ Definition event_code (e : event) : Z := match e with Connected => 1 | Disconnec
    [2 n len] -> [number of the n concurrently relayed bodies of len bytes that arrive intact]
    [1 mode status bodyLen framing pieces] ->
       [hasErr isNet timeout eof canceled  proxyStatus clientStatus bodyIntact abortPanic  ncb cb*] *)
-Definition decode_mode (z : Z) : mode :=
+(* mode + 100 (for Normal, HeaderTimeout, ClientCanceled, RequestDeadline): the backend sends a 103 Early Hints response
+   first; an interim response changes neither the error the transport reports nor the status of the exchange *)
+Definition decode_mode (z0 : Z) : mode :=
+  let z := if 100 <=? z0 then z0 - 100 else z0 in
   if z =? 0 then Normal else if z =? 1 then Refused else if z =? 2 then ResetBeforeHead
   else if z =? 3 then ClosedBeforeHead else if z =? 4 then HeaderTimeout else if z =? 5 then ClientCanceled
   else if z =? 6 then TruncatedBody else if z =? 7 then HeadCut else if z =? 8 then ResetAfterHead else RequestDeadline.
@@ -119,6 +122,11 @@ Definition run_op (o : list Z) : list Z :=
                 match oc with Panic => 1 | Return => 0 end;
                 Z.of_nat (length trace)] ++ map event_code trace
   | [2; n; _] => [n]                         (* n responses relayed at the same time: every one of them arrives intact *)
+  | [4; c] =>                                (* the request's context is already done when it arrives (1 past its deadline,
+                                                2 cancelled): the transport reports that at once; status, then the listener calls *)
+      let md := if c =? 1 then RequestDeadline else ClientCanceled in
+      let '(trace, _) := serve_state_listener (handler_outcome md) in
+      [proxy_status md 200; Z.of_nat (length trace)] ++ map event_code trace
   | [3; n] => [n]                            (* n long-lived (streamed) exchanges with one backend open at the same time:
                                                 every client has received its response head; nobody waits for another *)
   | _ => []
